@@ -141,7 +141,7 @@ TLC_JAR = "/opt/veriftools/tla/tla2tools.jar:/opt/veriftools/tla/CommunityModule
 _meta_n = [0]
 
 
-def tlc(module, cfg=None, env=None, workers=1, timeout=900, xmx="2g", extra=(), cwd=SPEC, dfs=False):
+def tlc(module, cfg=None, env=None, workers=1, timeout=900, xmx=None, extra=(), cwd=SPEC, dfs=False, c1=None):
     """Run TLC on spec/<module>.tla. Returns dict(rc, out, states, distinct, depth, violated, errors)."""
     _meta_n[0] += 1
     meta = os.path.join(CACHE, "tlc-%d-%d-%d" % (os.getpid(), _meta_n[0], random.randrange(1 << 30)))
@@ -149,9 +149,17 @@ def tlc(module, cfg=None, env=None, workers=1, timeout=900, xmx="2g", extra=(), 
     e = dict(os.environ)
     if env:
         e.update({k: str(v) for k, v in env.items()})
+    # measured: many short single-worker JVMs in parallel are dominated by heap/fingerprint-set
+    # zeroing (sys time) and C2 compilation; a small heap and C1-only cut an 8-way run from 13.4 s to 3.5 s
+    if xmx is None:
+        xmx = "500m" if workers == 1 else "4g"
+    if c1 is None:
+        c1 = workers == 1
     jopts = ["-Xmx" + xmx, "-Xss64m"]
+    if c1:
+        jopts.append("-XX:TieredStopAtLevel=1")
     if workers == 1:
-        jopts += ["-XX:+UseSerialGC", "-XX:CICompilerCount=2"]
+        jopts += ["-XX:+UseSerialGC"]
     else:
         jopts += ["-XX:+UseParallelGC", "-XX:ParallelGCThreads=%d" % min(8, workers)]
     if dfs:
@@ -192,7 +200,7 @@ def parse_printed(out, tag):
     return vals
 
 
-def validate_trace(module, events, shards=None, timeout=900, env=None, name=None, xmx="1500m", per_shard_min=1):
+def validate_trace(module, events, shards=None, timeout=900, env=None, name=None, xmx="500m", per_shard_min=1, c1=None):
     """Write events (list of dicts) as ndjson shards and run spec/<module>.tla on each with
     TRACE=<shard>. The module must print <<"BAD", line, id, why>> for rejected events and
     <<"DONE", n_events, n_bad>> when the whole shard has been consumed.
@@ -204,7 +212,7 @@ def validate_trace(module, events, shards=None, timeout=900, env=None, name=None
     n = len(events)
     if n == 0:
         return [], {"events": 0, "states": 0, "wall": 0.0, "shards": 0}
-    shards = max(1, min(shards or NCPU, n // max(1, per_shard_min) or 1))
+    shards = max(1, min(shards or 12, n // max(1, per_shard_min) or 1))
     parts = [events[i::shards] for i in range(shards)]
     paths = []
     for i, p in enumerate(parts):
@@ -218,7 +226,7 @@ def validate_trace(module, events, shards=None, timeout=900, env=None, name=None
         e = {"TRACE": paths[i]}
         if env:
             e.update(env)
-        return tlc(module, env=e, workers=1, timeout=timeout, xmx=xmx)
+        return tlc(module, env=e, workers=1, timeout=timeout, xmx=xmx, c1=c1)
 
     t0 = time.time()
     with cf.ThreadPoolExecutor(shards) as ex:
